@@ -14,6 +14,7 @@ Reading of the statement in the models
 import ForML.Lemmas.C20Conf
 import ForML.Lemmas.C20Bank
 import ForML.Lemmas.C20Comm
+import ForML.Lemmas.C20Mono
 
 namespace ForML.Conf
 
@@ -242,6 +243,35 @@ theorem C20_abstract_never_registered (cs : List ClassDef) (b : Bank) (h : addAl
     (bankSound_empty _) h r i (lookupRef_mem hl)
   exact ⟨c, hc, ha, hr, hi⟩
 
+/-- …where "abstract" is the module's own extended predicate: a registered class has neither unimplemented abstract
+methods / properties (own, inherited, from a mixin) nor an abstract inner class among its own attributes. -/
+theorem C20_abstract_extended (cs : List ClassDef) (b : Bank) (h : addAll Bank.empty cs = .ok b)
+    (r : Ref) (i : ClassId) (hl : lookupRef r b.provider = some i) :
+    ∃ c ∈ cs, c.unimpl = false ∧ c.inner = false ∧ r ∈ refs c ∧ c.id = i := by
+  obtain ⟨c, hc, ha, hr, hi⟩ := C20_abstract_never_registered cs b h r i hl
+  simp only [ClassDef.abstract, Bool.or_eq_false_iff] at ha
+  exact ⟨c, hc, ha.1, ha.2, hr, hi⟩
+
+/-- `Bank.add` with the registration skip decided by the standard library's `inspect.isabstract` alone -/
+def addStdlib (b : Bank) (c : ClassDef) : Except Err Bank :=
+  if collides b c then .error .collision
+  else
+    let paths := addPaths b.paths (c.paths.map (fun m => ⟨m, true⟩))
+    if c.unimpl then .ok ⟨b.provider, paths⟩
+    else .ok ⟨register b.provider c, paths⟩
+
+def C20_abstract_stdlib_full : Prop :=
+  ∀ (c : ClassDef) (b : Bank), addStdlib Bank.empty c = .ok b → ∀ r i, lookupRef r b.provider = some i → c.abstract = false
+
+/-- Why both sites must use the extended predicate: a class whose methods are all implemented but which carries an
+abstract inner class would be registered (and returned by its qualified name). -/
+theorem C20_abstract_stdlib_counterexample : ¬ C20_abstract_stdlib_full := by
+  intro h
+  have := h ⟨⟨⟨1, some 5⟩, 1⟩, none, false, true, [⟨⟨0, none⟩, 0⟩], []⟩ _ rfl (.qual ⟨⟨1, some 5⟩, 1⟩) ⟨⟨1, some 5⟩, 1⟩
+    (by decide)
+  revert this
+  decide
+
 /-- An alias on an abstract class is rejected by `__init_subclass__` before any bank is touched. -/
 theorem C20_abstract_alias_rejected (st : St) (c : ClassDef) (a : Nat) (ha : c.alias = some a)
     (hab : c.abstract = true) : initSubclass st c = (st, some .abstractAlias) := by
@@ -421,6 +451,29 @@ example :
     let ms' : List Mod := [⟨0, none⟩, ⟨2, some 6⟩, ⟨1, some 7⟩, ⟨1, some 5⟩]
     ms.Perm ms' ∧ (importAll w St.empty ms).isSome = true ∧ (importAll w St.empty ms').isSome = true ∧
       importAll w St.empty ms ≠ importAll w St.empty ms' := by decide
+
+/-- Nothing is ever consumed: a lookup keeps every binding, every search path of every bank (the path sets never
+shrink) and every `sys.modules` entry — whatever it was asked and however it ended. -/
+theorem C20_lookup_keeps_state (w : World) (st : St) (iface : ClassId) (r : Ref) (order : List Mod) :
+    StLe st (get w st iface r order).1 := get_le w st iface r order
+
+/-- Lookup-sequence independence for hits: once `Service[reference]` has returned a class, every later lookup of that
+reference returns the same class, whatever imports (failing ones included) and lookups (hits and misses, of any
+interface) happen in between. Together with `C20_lookup_single_class` (any two hits agree) the answer does not depend
+on the position in a sequence. -/
+theorem C20_lookup_stable (w : World) (st : St) (iface : ClassId) (r : Ref) (o o' : List Mod) (c : ClassId)
+    (ops : List HOp) (h : (get w st iface r o).2 = .ok c) :
+    (get w (runHist w (get w st iface r o).1 ops) iface r o').2 = .ok c := by
+  apply get_of_bound
+  exact ((runHist_le w ops _).1 iface).1 r c (get_ok_bound w st iface r o c h)
+
+/-- …and a hit anywhere in any history from a fresh process is the unique carrier of the reference. -/
+theorem C20_lookup_history (w : World) (ops ops' : List HOp) (iface iface' : ClassId) (r : Ref) (o o' : List Mod)
+    (hu : uniqueRef w r = true) (i j : ClassId)
+    (h1 : (get w (runHist w St.empty ops) iface r o).2 = .ok i)
+    (h2 : (get w (runHist w St.empty ops') iface' r o').2 = .ok j) : i = j :=
+  C20_lookup_single_class w _ _ iface iface' r o o' (runHist_sound w ops _ (stSound_empty _))
+    (runHist_sound w ops' _ (stSound_empty _)) hu i j h1 h2
 
 /-- non-vacuity: in the witness world the qualified reference of `pk1.dup:Impl` is unique, the state after importing
 the interface is sound-by-construction input, both orders return that class; the alias `dup` is not unique and now
